@@ -42,6 +42,10 @@ CHECKS = {
          "Every permutation (n <= 5) and input form of 9 abscissa sets x every degree below n is evaluated at every node and 8 abscissae against exact rational arithmetic; root() and minmax() are called on every ordered pair of a 12-14 point limit set (reversed, equal, out-of-table included) on 6 tables and judged by the sign of the exact interpolant; the conjunction helpers on 720 synthetic motions incl. the 0h seam.",
          "Real-valued quantifier: finite alphabets of tables and limits; tolerance 1e-9 relative as stated.",
          "DESIGN.md 3/C12"),
+ "C17": (EX, "exhaustive enumeration: all permutations of small data sets x input forms x fit kinds (all ordered pairs/triples of a 7-function basis menu) against an exact rational least-squares solver",
+         "15 data sets x every permutation (<= 6 points) x 6 input forms x linear/quadratic/general fits are compared with the exact rational solution of the normal equations (coefficients 1e-6 relative, residual orthogonality), plus the fit-to-fit relations, the correlation identities and the degenerate sets.",
+         "Real-valued quantifier: finite alphabet of data sets; 'well-conditioned' is fixed as det(A)/prod(diag A) >= 1e-6 of the exact normal matrix.",
+         "DESIGN.md 3/C17"),
 }
 
 NOT_YET = {}
